@@ -204,7 +204,7 @@ structure SiteAcc where
   sets : Nat
   last : Option (ArtX × Outcome × Nat)     -- artefact, outcome, signature value of the last request
 
-def siteLine (vsixFix : Bool) (typ hn : String) (att : Int) (mode : String) (rfcFlag : Bool) : String :=
+def siteLine (orig : Bool) (typ hn : String) (att : Int) (mode : String) (rfcFlag : Bool) : String :=
   match siteOfType typ with
   | none => "bad-op"
   | some (site, nreq) =>
@@ -231,9 +231,9 @@ def siteLine (vsixFix : Bool) (typ hn : String) (att : Int) (mode : String) (rfc
           | none => .reset
         let call := stamperCall D H cfg conf [] memcache true sh 0 Ctx.background world legacy hash nonce0 ed
         let o := call.1.outcome
-        -- a tree in which the VSIX signer verifies the token first (patches/F52) behaves like the cosign site
-        let attachSite : Site := if site = .vsix && vsixFix then .cosign else site
-        let res := (signSite H cfg.guards attachSite ed leafId (if mode = "off" then none else some o)).1
+        -- `orig`: the signer modules as they were before fix a163120 (VSIX embedded the token unchecked, F52)
+        let ts := if mode = "off" then none else some o
+        let res := if orig then (signSiteOrig H cfg.guards site ed leafId ts).1 else (signSite H cfg.guards site ed leafId ts).1
         let stored := memcache && (match o.res with | .ok (.url _, _) => true | _ => false)
         let a' : SiteAcc := { sh := if mode = "foreign" then a.sh else call.2, reqs := a.reqs + 1, contacted := a.contacted ++ o.contacted,
                               gets := a.gets + (if memcache then 1 else 0), sets := a.sets + (if stored then 1 else 0), last := a.last }
@@ -351,9 +351,11 @@ def handle : List String → String
     match att.toInt? with
     | some a =>
       let rfc := !(flags.splitOn ";").contains "rfc3161-timestamp=false"
+      -- the prediction is the current (repaired) code; the tag says what the tree before fix a163120 did, so that an
+      -- implementation that behaves like it is named as such in the violation
       let main := siteLine false typ hn a mode rfc
-      let alt := siteLine true typ hn a mode rfc
-      if alt = main then main else main ++ " #alt " ++ alt
+      let old := siteLine true typ hn a mode rfc
+      if old = main then main else main ++ " #orig " ++ old
     | none => "bad-op"
   | ["conc", n, rate, burst, cache] =>
     match n.toNat?, rate.toInt?, burst.toInt? with
